@@ -277,6 +277,17 @@ func hostileErrors() map[string]error {
 		"crlf-msg":         errors.New("a\r\ngrpc-status: 0\r\n\r\n"),
 		"binary-msg":       errors.New(string([]byte{0, 1, 2, 0xff, 0xfe, '"', '\\'})),
 	}
+	// long error texts of every byte class: only continuation bytes, only lead bytes, four-byte characters
+	// ending at and across the powers of two, invalid bytes
+	for _, n := range []int{255, 256, 257, 1023, 1024, 1025, 1026, 4095, 4097, 65537} {
+		out[fmt.Sprintf("long-continuation-bytes-%d", n)] = errors.New(strings.Repeat("\x80", n))
+		out[fmt.Sprintf("long-bf-bytes-%d", n)] = errors.New(strings.Repeat("\xbf", n))
+		out[fmt.Sprintf("long-lead-bytes-%d", n)] = errors.New(strings.Repeat("\xf0", n))
+		out[fmt.Sprintf("long-ff-bytes-%d", n)] = errors.New(strings.Repeat("\xff", n))
+		out[fmt.Sprintf("long-four-byte-characters-%d", n)] = errors.New(strings.Repeat("\U0001F600", n/4+1)[:n])
+		out[fmt.Sprintf("long-ascii-then-continuation-%d", n)] = errors.New("a" + strings.Repeat("\x80", n))
+		out[fmt.Sprintf("long-ascii-%d", n)] = errors.New(strings.Repeat("e", n))
+	}
 	out["multi-empty-list"] = &multiErr{"quota exceeded", []error{}}
 	out["multi-nil-list"] = &multiErr{"validation", nil}
 	out["multi-list-of-nils"] = &multiErr{"m", []error{nil, nil}}
